@@ -867,12 +867,14 @@ def scenarios(quick):
 
     def add(fam, cores, gpus, reqs, streams=None, lines='worker', bound=None):
         reqs = [dict(r) for r in reqs]
-        name = '%s/%dc%dg/%s%s/%s' % (
+        name = '%s/%dc%dg/%s%s/%s/b%d' % (
                fam, cores, gpus,
                ','.join('%s:%s%s' % (r['demand'], r['payload'],
                                      ':async' if r.get('async') else '')
                         for r in reqs),
-               '' if not streams else '/streams=%s' % streams, lines)
+               '' if not streams else '/streams=%s' % streams, lines, bound)
+        if any(o['name'] == name for o in out):
+            return
         out.append({'name': name, 'family': fam, 'cores': cores, 'gpus': gpus,
                     'reqs': reqs, 'lines': lines, 'bound': bound,
                     'streams': streams or [list(range(len(reqs)))]})
@@ -933,6 +935,16 @@ def scenarios(quick):
         for p in ('ok', 'hang/t'):
             add('three', 3, 1, [R(ds[0], p), R(ds[1], 'ok'),
                                 R(ds[2], 'ok')], bound=1)
+
+    if not quick:
+        # the DESIGN bound (3 requests, 2 deviations) for a few workloads
+        for ds, ps in ((('1c', '1c', '1c'),     ('ok', 'ok', 'ok')),
+                       (('1c', '2c', '1c'),     ('ok', 'ok', 'ok')),
+                       (('2c', '1c', '1c'),     ('ok', 'ok', 'ok')),
+                       (('1c1g', '1c1g', '1c'), ('ok', 'ok', 'ok')),
+                       (('1c', '2c', '1c'),     ('hang/t', 'ok', 'ok')),
+                       (('2c', '2c', '2c'),     ('ok', 'nofork', 'ok'))):
+            add('three', 2, 1, [R(d, p) for d, p in zip(ds, ps)], bound=2)
 
     # F4: two concurrent request streams (the allocation must be atomic)
     for d1 in ('1c', '2c', '1c1g'):
@@ -1054,6 +1066,12 @@ def run(ctx):
         ctx.merge(res)
     if errs:
         raise RuntimeError('harness errors: %s' % errs[:3])
+    bounds = dict()
+    for sc in _scns:
+        bounds.setdefault(sc['family'], set()).add(sc['bound'])
+    ctx.set(deviation_bound=max(sc['bound'] for sc in _scns),
+            deviation_bounds_by_family={k: sorted(v)
+                                        for k, v in sorted(bounds.items())})
     # per key the counterexample with the fewest requests / deviations
     for key, (detail, rep) in sorted(best.items()):
         ctx.violation(key, detail, rep)
